@@ -205,11 +205,17 @@ def stepTop (m : Machine) (op : Op) (addrHint : Nat) : Machine × Ans :=
       | none => (m, .badOp)
   | _, _ => (m, .badOp)
 
+/-- `ManagedRelocs::append`: entries of `new` replace entries of `old` with the same key -/
+def mergeManaged (old new : Managed) : Managed := new.foldl (fun (acc : Managed) e => acc.add e.2) old
+
 /-- `Modifier::goto` -/
 def sessionGoto (a : ExecAsm) (s : Session) (off : Nat) : Option (ExecAsm × Session) :=
   -- `&self.buffer[prev .. cursor]`
   if s.prev > s.cursor ∨ s.cursor > s.buf.length then none else
-  some ({ a with managed := a.managed.removeBetween s.prev s.cursor }, { s with cursor := off, prev := off })
+  -- … and the fields this session wrote so far join the registry (`old_managed.append(&mut new_managed)`), so that a later part
+  -- of the same session that overwrites one of them forgets it again
+  some ({ a with managed := mergeManaged (a.managed.removeBetween s.prev s.cursor) s.newManaged },
+        { s with cursor := off, prev := off, newManaged := [] })
 
 /-- `Modifier::encode_relocs` + putting the buffer back (`Assembler::alter` after the closure returned) -/
 def sessionEnd (a : ExecAsm) (s : Session) : Option (ExecAsm × Out) :=
@@ -218,14 +224,12 @@ def sessionEnd (a : ExecAsm) (s : Session) : Option (ExecAsm × Out) :=
     { a with mem := { a.mem with map := buf ++ a.mem.map.drop a.mem.len } }
   -- the modifier's loops use the shared label and relocation registries but its own error slot
   let (c, buf, madd, o) := ({ a.core with error := s.error } : Core).encodeRelocs s.buf 0 a.mem.addr true
-  let a1 := { a with core := { c with error := a.core.error } }
+  -- before anything can fail: what the last run of emissions replaced is forgotten, what the session wrote is tracked;
+  -- label references are added one by one as they are patched (also those patched before a later one fails)
+  let managed := (mergeManaged (a.managed.removeBetween s.prev s.cursor) s.newManaged).addAll madd
+  let a1 := { a with core := { c with error := a.core.error }, managed := managed }
   match o with
   | .panic => none
-  | .ok =>
-    let newM : Managed := (Managed.addAll s.newManaged madd)
-    let old := a1.managed.removeBetween s.prev s.cursor
-    let merged := newM.foldl (fun (acc : Managed) e => acc.add e.2) old
-    some (restore { a1 with managed := merged } buf, .ok)
   | e => some (restore a1 buf, e)
 
 def stepSession (m : Machine) (a : ExecAsm) (s : Session) (op : Op) : Machine × Ans :=
